@@ -24,6 +24,8 @@ type program struct {
 	Args []string  `json:"args"`
 	// Order, when given, is the declaration order: "o<i>" = Opts[i], "a<j>" = Args[j] (default: options, then arguments)
 	Order []string `json:"order"`
+	// NoSBU lists variables ("O:-b", "A:Y") declared without a SetByUser pointer
+	NoSBU []string `json:"nosbu"`
 }
 
 func loadPrograms() []program {
@@ -74,6 +76,8 @@ type execCase struct {
 	Spec *string  `json:"spec"` // nil: no spec string (C16)
 	Env  []string `json:"env"`  // option keys backed by a set, valid environment variable
 	Argv []string `json:"argv"`
+	// Prerun: argument vectors run first on the SAME application object (outcome ignored)
+	Prerun [][]string `json:"prerun"`
 }
 
 type execResult struct {
@@ -171,15 +175,29 @@ func runExec(p program, c execCase) (r execResult) {
 	if c.Spec != nil {
 		app.Spec = *c.Spec
 	}
+	nosbu := map[string]bool{}
+	for _, k := range p.NoSBU {
+		nosbu[k] = true
+	}
 	declOpt := func(o optDecl) {
 		k := optKey(o.Names)
 		l, b := new([]string), new(bool)
-		logs["O:"+k], sbu["O:"+k] = l, b
+		logs["O:"+k] = l
+		if nosbu["O:"+k] {
+			b = nil
+		} else {
+			sbu["O:"+k] = b
+		}
 		app.Var(cli.VarOpt{Name: o.Names, EnvVar: envVarOf(k), Value: &rec{flag: o.Flag, log: l}, SetByUser: b})
 	}
 	declArg := func(a string) {
 		l, b := new([]string), new(bool)
-		logs["A:"+a], sbu["A:"+a] = l, b
+		logs["A:"+a] = l
+		if nosbu["A:"+a] {
+			b = nil
+		} else {
+			sbu["A:"+a] = b
+		}
 		app.Var(cli.VarArg{Name: a, EnvVar: envVarOf("A:" + a), Value: &rec{log: l}, SetByUser: b})
 	}
 	if len(p.Order) == 0 {
@@ -214,6 +232,20 @@ func runExec(p program, c execCase) (r execResult) {
 		for k, b := range sbu {
 			r.SBU[k] = *b
 		}
+	}
+	for _, pre := range c.Prerun {
+		func() {
+			defer func() { recover() }()
+			app.Run(append([]string{"app"}, pre...))
+		}()
+		r.Ran, r.Hooks = false, nil
+		for _, l := range logs {
+			*l = nil
+		}
+		for _, b := range sbu {
+			*b = false
+		}
+		errBuf.Reset()
 	}
 	if err := app.Run(append([]string{"app"}, c.Argv...)); err != nil {
 		r.Err = err.Error()
